@@ -118,6 +118,7 @@ def run(ctx):
     R_entry = ctx.rule("C05.entry-points-found", "the public parse/open/read entry points exist and are the roots of the analysed call graph", floor=25)
     R_alloc = ctx.rule("C05.A-no-input-sized-allocation", "no allocation size derives from input without a dominating bound check / min / checked op", floor=100)
     R_arith = ctx.rule("C05.C-no-unchecked-input-arithmetic", "no overflow-checked subtraction/addition/multiplication on input-derived operands without a dominating ordering check", floor=40)
+    R_narrow = ctx.rule("C05.C2-no-overflow-at-read-width", "no overflow-checked add/multiply of two input fields at the width they were read at without a bound on either", floor=30)
     R_index = ctx.rule("C05.D-no-constant-index-on-unchecked-buffer", "no `buf[k]` (constant k) on a buffer whose length is input-controlled and was not checked", floor=5)
     R_fixed = ctx.rule("C05.F-input-index-into-fixed-array-bounded", "every input-derived component of an index into a fixed-size array is clamped or compared on its own path", floor=20)
     R_rec = ctx.rule("C05.E-no-unbounded-recursion", "no call-graph cycle reachable from an entry point lacks a depth bound", floor=1)
@@ -195,7 +196,29 @@ def run(ctx):
             elif t["k"] == "assert" and t["ak"].startswith("overflow:") and not t.get("x"):
                 opk = t["ak"].split(":")[1]
                 if opk != "Sub":
-                    # Add/Mul on input values matter through their consequence (an allocation size or an index), which rule A/D report at the sink
+                    # Add/Mul on input values mostly matter through their consequence (an allocation size or an index), which rules A/D/F
+                    # report at the sink.  The exception decided here (C2): the operation is performed at the *width the operands were
+                    # read at* (u8 + u8 as u8, u32 + u32 as u32, two u64 reads added as u64), so ordinary hostile field values overflow it.
+                    if opk in ("Add", "Mul"):
+                        whys2 = [ft.operand_tainted(o) for o in t["ops"]]
+                        if all(whys2):
+                            def src_bits(w):
+                                m_ = re.match(r"(?:field|read read_)[ ]?[ui](\d+)", w.replace("field ", "field"))
+                                return int(m_.group(1)) if m_ else None
+                            sb = [src_bits(w) for w in whys2]
+                            l0 = op_local(t["ops"][0])
+                            tn = (f.crate.ty(f.mir["locals"][l0][0]) or "") if l0 is not None else ""
+                            ob = {"usize": 64, "isize": 64}.get(tn) or (int(re.sub(r"\D", "", tn)) if re.fullmatch(r"[ui]\d+", tn) else None)
+                            narrow = None not in sb and ob is not None and ((opk == "Add" and ob <= max(sb)) or (opk == "Mul" and ob < sum(sb)))
+                            if not narrow:
+                                ctx.ok(R_narrow, {"fn": path, "op": opk, "line": t["ln"], "type": tn, "source_bits": sb, "note": "carried out wider than the operands were read, or operand widths unknown (params / returns)"})
+                            if narrow:
+                                if any(ft.sanitised(o, bb, strict=True) for o in t["ops"]):
+                                    ctx.ok(R_narrow, {"fn": path, "op": opk, "line": t["ln"], "sanitised": True})
+                                else:
+                                    ctx.bad(R_narrow, "C2|%s|%s|%s" % (path, opk, "+".join(w.split("→")[0] for w in whys2)), "%s:%d" % (f.file, t["ln"]),
+                                            "%s of two input fields (%s) carried out in %s, the width they were read at, with no bound on either" % (opk, ", ".join(w.split("→")[0] for w in whys2), tn),
+                                            "ordinary hostile values overflow: panic `attempt to %s with overflow` in builds with overflow checks, a wrapped (small) value elsewhere" % ("add" if opk == "Add" else "multiply"))
                     continue
                 ops = t["ops"]
                 whys = [ft.operand_tainted(o) for o in ops]
